@@ -47,6 +47,10 @@ def check_poly1305(ctx, P):
     ctx.check(vals == {1}, "mustset", "poly1305::Poly1305::finish:finalized", "finalized == true after finish on every path", "Poly1305::finish does not set finalized on every path (block-aligned messages): a second result re-finishes and returns different bytes, input is still accepted: %s" % vals, where=fin.where(), key="mustset:poly1305::Poly1305::finish:finalized")
     # the flag is set BEFORE the padded partial block is processed (hibit = 0)
     bl = fin.calls_to(r"poly1305::Poly1305::block$")
+    if not bl:
+        # the block call may sit in a private helper of the type (e.g. "process the buffered block"): the call of that helper
+        # in finish is the site that must come after the flag
+        bl = [via for f2, c2, via in objects.engine_calls(P, fin, r"poly1305::Poly1305::block$") if via is not None]
     okb = len(bl) == 1
     if okb:
         setters = [b for b, i, names, rv in rules.field_writes(fin) if names == ["finalized"] and rv[0] == "use" and const_val(rv[1]) == 1]
